@@ -70,7 +70,7 @@ func newWorld(r *rand.Rand, nkeys int, mutable bool) *cworld {
 
 type MutVal struct{ B []byte }
 
-func (m *MutVal) Clone() statecache.Value      { return &MutVal{append([]byte(nil), m.B...)} }
+func (m *MutVal) Clone() statecache.Value     { return &MutVal{append([]byte(nil), m.B...)} }
 func (m *MutVal) CopyFrom(v interface{}) bool { return false }
 
 func (w *cworld) mkValue(tok string) statecache.Value {
